@@ -1,5 +1,6 @@
 (* Eco/Maven/Version.v — model of pkg/ecosystem/maven/version.go (definitions only). *)
 From Verif.Base Require Import Bytes GoNum Ord.
+From Verif.Gen Require Tables.
 From Verif.Eco Require Import VLayer.
 Local Open Scope N_scope.
 
@@ -94,10 +95,9 @@ Definition parse_core (t : bytes) : option core :=
 
 (* ---------- Compare ---------- *)
 
+(* generated from the Go source on every run (tools/gen -> Gen/Tables.v) *)
 Definition qualifierOrder : list (bytes * Z) :=
-  [ ($"alpha", 1); ($"a", 1); ($"beta", 2); ($"b", 2); ($"milestone", 3); ($"m", 3);
-    ($"rc", 4); ($"cr", 4); ($"snapshot", 5); ([], 6); ($"ga", 6); ($"final", 6);
-    ($"release", 6); ($"sp", 7) ]%Z.
+  Eval cbv delta [Verif.Gen.Tables.maven_qualifierOrder] in Verif.Gen.Tables.maven_qualifierOrder.
 
 (* number against string: the empty string (release) and "sp" are greater than any number *)
 Definition above_numbers (s : bytes) : bool := beq s [] || beq s $"sp".
